@@ -231,7 +231,8 @@ bool GetUintEnvironmentVariable(const char *env_var_name, std::uint32_t &value)
                                                     << raw_value << ">, defaulting to "
                                                     << kDefaultValue);
   }
-  else if (actual_end != end || std::numeric_limits<std::uint32_t>::max() < temp)
+  else if (actual_end != end || std::numeric_limits<std::uint32_t>::max() < temp ||
+           raw_value.find('-') != std::string::npos)
   {
     OTEL_INTERNAL_LOG_WARN("Environment variable <" << env_var_name << "> has an invalid value <"
                                                     << raw_value << ">, defaulting to "
